@@ -31,10 +31,10 @@ regenerate = pipecheck.regenerate
 
 
 def cases(rng, tier):
-    n = fw.tier_scale(tier, 350, 3500)
+    n = fw.tier_scale(tier, 200, 3500)
     per = fw.tier_scale(tier, 4, 12)
-    for _ in range(n):
-        p = pipes.gen_case(rng, 3)
+    plist = list(pipes.gen_systematic(rng, fw.tier_scale(tier, 2, 6))) + [pipes.gen_case(rng, 3) for _ in range(n)]
+    for p in plist:
         base = pipes.run(p)
         times = pipes.event_times(base)
         pick = times if len(times) <= per else sorted(rng.sample(times, per))
